@@ -60,6 +60,10 @@ def run (p : P String) (toks : List String) : String :=
   | some (s, _) => s
   | none => err "format"
 
+def pOpt {α : Type} (p : P α) : P (Option α) := do
+  let b ← pBool
+  if b then (do let a ← p; pure (some a)) else pure none
+
 def handleC17 (toks : List String) : String :=
   match toks with
   | "disp" :: rest => run (do
@@ -134,6 +138,22 @@ def handleC17 (toks : List String) : String :=
       | .ok s => pure s
       | .error .assert => pure (err "assert")
       | .error .value => pure (err "value")) rest
+  | "slipentry" :: rest => run (do
+      -- slip_vector with atom counts n0 n1 and the three source flags -> neighbors | cutoff | attr | err:assert | err:value
+      let n0 ← pNat; let n1 ← pNat; let nb ← pBool; let cu ← pBool; let att ← pBool; pEnd
+      let o := fun (b : Bool) (s : String) => if b then some s else none
+      match slipVectorRefusals n0 n1 (o nb "neighbors") (o cu "cutoff") (o att "attr") with
+      | .ok s => pure s
+      | .error .assert => pure (err "assert")
+      | .error .value => pure (err "value")) rest
+  | "asdictplan" :: rest => run (do
+      -- Strain.asdict(properties): `0` (None) | `1 k name*k` -> `ok` / `assert` followed by the properties read, in order
+      let props ← pOpt (do let k ← pNat; pMany tok k); pEnd
+      let plan := asdictPlan props
+      let nm : SProp → String := fun p => match p with
+        | .G => "G" | .strain => "strain" | .inv1 => "inv1" | .inv2 => "inv2" | .inv3 => "inv3"
+        | .rotation => "rotation" | .angvel2 => "angvel2" | .nye => "nye"
+      pure (" ".intercalate ((if plan.2 then "assert" else "ok") :: plan.1.map nm))) rest
   | "srcs" :: rest => run (do
       -- Strain(...): flags for the system (neighbors cutoff attr), basesystem given, flags baseneighbors / base attr
       let nb ← pBool; let cu ← pBool; let att ← pBool; let bs ← pBool; let bn ← pBool; let ba ← pBool; pEnd
@@ -183,10 +203,6 @@ def withCond (old : SObj Rat) (forced : Bool) (st : St) : St :=
   | none => st
   | some o =>
     if forced || ((old.cache .G).isNone && (o.cache .G).isSome) then { st with cond := condOf o.inp } else st
-
-def pOpt {α : Type} (p : P α) : P (Option α) := do
-  let b ← pBool
-  if b then (do let a ← p; pure (some a)) else pure none
 
 def pSys : P (Sys Rat) := do
   let c ← pCell; let n ← pNat; let p ← pPos n
